@@ -324,4 +324,180 @@ def presyncCall (j : Join) (m : Option Dir) (args kwargs : List (String × Tree)
       | .error e => .error e
       | .ok k => .ok (a, k)
 
+/-! ### `limit`, method lists and numeric methods (`_df_reindex` lines 377-387, all of it) -/
+
+/-- the observation (label, value) an as-of lookup lands on -/
+def asofObs (d : Dir) (o : List (Int × Int)) (t : Int) : Option (Int × Int) :=
+  (asofPos d (o.map Prod.fst) t).bind fun (i : Nat) => o[i]?
+
+/-- pandas `Index.get_indexer(target, method, limit)` (`libalgos.pad` / `libalgos.backfill`) walking along the requested labels
+in the direction of the fill: a requested label that IS the label of an observation always gets it; of the requested labels
+that land inexactly on one and the same observation only the first `limit` get it.  `prev` = label of the observation the
+previous requested label landed on, `k` = inexact matches it has served so far. -/
+def limAux (d : Dir) (lim : Option Nat) (o : List (Int × Int)) : Option Int → Nat → List Int → Col
+  | _, _, [] => []
+  | prev, k, t :: ts =>
+    match asofObs d o t with
+    | Option.none => Option.none :: limAux d lim o Option.none 0 ts
+    | some (s, v) =>
+      if s = t then some v :: limAux d lim o (some s) 0 ts
+      else
+        (if within lim (if prev = some s then k else 0) then some v else Option.none)
+          :: limAux d lim o (some s) ((if prev = some s then k else 0) + 1) ts
+
+/-- `_nona(col).reindex(idx, method, limit)`: `pad` runs over the requested labels from the left, `backfill` from the right -/
+def asofColLim (d : Dir) (lim : Option Nat) (fidx : List Int) (c : Col) (idx : List Int) : Col :=
+  match d with
+  | .ffill => limAux .ffill lim (obs fidx c) Option.none 0 idx
+  | .bfill => (limAux .bfill lim (obs fidx c) Option.none 0 idx.reverse).reverse
+
+/-- the as-of branch (lines 381-385) with a `limit`, column by column -/
+def reindexFrameL (f : Frame) (idx : List Int) (d : Dir) (lim : Option Nat) : Frame :=
+  { idx := idx, cols := f.cols.map fun c => (c.1, asofColLim d lim f.idx c.2 idx) }
+
+/-- `_df_reindex` on a pandas object with ANY method (list) and `limit`, lines 377-387:
+```
+if len(methods) and methods[0] in ['backfill', 'bfill', 'pad', 'ffill']:
+    res = _nona(ts).reindex(index, method = methods[0], limit = limit)      # column by column for a frame
+    res = _df_fillna(res, method = methods[1:], limit = limit)
+else:
+    res = ts.reindex(index)
+    res = _df_fillna(res, method = method, limit = limit)
+```
+the TAIL of the list (the whole list when it does not start with ffill / bfill) goes through C12's `fillna`; `limit = 0` is
+rejected by pandas' `reindex(method=, limit=0)` as by `ffill(limit=0)` -/
+def reindexFill (f : Frame) (idx : List Int) (ms : List Method) (lim : Option Nat) : Res Frame :=
+  match ms with
+  | .ffill :: rest => if limOk lim then fillna rest lim (reindexFrameL f idx .ffill lim) else .error .value
+  | .bfill :: rest => if limOk lim then fillna rest lim (reindexFrameL f idx .bfill lim) else .error .value
+  | _ => fillna ms lim (reindexFrame f idx Option.none)
+
+/-- `_df_reindex(ts, index, method, limit)` on one member, lines 374-404, any method list -/
+def reindexLeafM (ix : Index) (ms : List Method) (lim : Option Nat) : Leaf → Res Leaf
+  | .ts s f =>
+    match ix with
+    | .times idx => (reindexFill f idx ms lim).map (.ts s)
+    | .len _ => .error .value
+    | .none => .ok (.ts s f)
+  | .arr xs =>
+    match ix with
+    | .times idx => if idx.length = xs.length ∨ xs.length ≤ 1 then .ok (.arr xs) else .error .value
+    | .len n =>
+      match fillnaArr ms lim [alignArr n xs] with
+      | .ok [c] => .ok (.arr c)
+      | .ok _ => .error .other
+      | .error e => .error e
+    | .none => .ok (.arr xs)
+  | .other v => .ok (.other v)
+
+/-! `_df_reindex` is decorated `@loop(list, tuple, dict)`, and `loops._wrapped` (`_loop.py:206-240`, `_item_by_i`) hands a
+list- or tuple-valued KEYWORD argument of the same length as a list / tuple container out member by member
+(`f([1,2,3], [4,5,6]) == [5,7,9]`).  So a method LIST `['ffill', 'bfill']` applied to a list of TWO timeseries gives the first
+`'ffill'` and the second `'bfill'` instead of both the sequence; a dict container, a container of another length and a bare
+method (a word, a number) are not affected.  `bare = true`: the method is a single word / number (never split). -/
+mutual
+  def Tree.mapMS (g : List Method → Leaf → Res Leaf) (bare : Bool) (ms : List Method) : Tree → Res Tree
+    | .leaf l => (g ms l).map .leaf
+    | .node tag kids =>
+      if tag != .dict && !bare && ms.length == kids.length then (zipKidsMS g ms kids).map (.node tag)
+      else (mapKidsMS g bare ms kids).map (.node tag)
+  def mapKidsMS (g : List Method → Leaf → Res Leaf) (bare : Bool) (ms : List Method) :
+      List (String × Tree) → Res (List (String × Tree))
+    | [] => .ok []
+    | (k, t) :: r =>
+      match t.mapMS g bare ms with
+      | .error e => .error e
+      | .ok t' =>
+        match mapKidsMS g bare ms r with
+        | .error e => .error e
+        | .ok r' => .ok ((k, t') :: r')
+  /-- member `i` gets method `i`, as a bare method -/
+  def zipKidsMS (g : List Method → Leaf → Res Leaf) : List Method → List (String × Tree) → Res (List (String × Tree))
+    | m :: ms, (k, t) :: r =>
+      match t.mapMS g true [m] with
+      | .error e => .error e
+      | .ok t' =>
+        match zipKidsMS g ms r with
+        | .error e => .error e
+        | .ok r' => .ok ((k, t') :: r')
+    | _, _ => .ok []
+end
+
+/-- `df_reindex(ts, index, method, limit)` with the index already determined -/
+def reindexTreeM (ix : Index) (bare : Bool) (ms : List Method) (lim : Option Nat) (t : Tree) : Res Tree :=
+  match ix with
+  | .none => .ok t
+  | _ => t.mapMS (fun ms' => reindexLeafM ix ms' lim) bare ms
+
+/-- `df_sync(dfs, join, method, columns)` with any method (list); `df_sync` has no `limit` (line 836 passes none on) -/
+def syncJM (j : Join) (bare : Bool) (ms : List Method) (colHow : Option How) (t : Tree) : Res Tree :=
+  match t with
+  | .leaf _ => .ok t
+  | .node _ _ =>
+    let listed := t.flatTop
+    match dfIndexJ j listed with
+    | .error e => .error e
+    | .ok ix =>
+      match reindexTreeM ix bare ms Option.none t with
+      | .error e => .error e
+      | .ok t' =>
+        match colHow with
+        | Option.none => .ok t'
+        | some ch => t'.mapM (recolumnLeaf (joinCols ch (multiCols listed)))
+
+/-- both halves of a `presync` call reindexed onto one index (lines 1030-1031) -/
+def presyncOnto (ix : Index) (bare : Bool) (ms : List Method) (args kwargs : List (String × Tree)) : Res (Tree × Tree) :=
+  match reindexTreeM ix bare ms Option.none (.node .tuple args) with
+  | .error e => .error e
+  | .ok a =>
+    match reindexTreeM ix bare ms Option.none (.node .dict kwargs) with
+    | .error e => .error e
+    | .ok k => .ok (a, k)
+
+/-- `presync(f)(*args, **kwargs)` with `columns=False`, `join` a policy word or an explicit index, any method (list) -/
+def presyncCallM (j : Join) (bare : Bool) (ms : List Method) (args kwargs : List (String × Tree)) : Res (Tree × Tree) :=
+  match dfIndexJ j (flatKids (args ++ kwargs)) with
+  | .error e => .error e
+  | .ok ix => presyncOnto ix bare ms args kwargs
+
+/-- a `pd.Index` object met as a MEMBER (not as the join policy) is no timeseries: it passes through like any other object
+(`Leaf.other`).  It is represented by the value `{"pd.Index": [t, ...]}` so that `_index` can read its labels. -/
+def asPdIndex : Val → Option (List Int)
+  | .dict [("pd.Index", .list xs)] => xs.mapM fun x => match x with | .cell (.dt t) => some t | _ => Option.none
+  | _ => Option.none
+
+/-- `_index(value)`, lines 80-94, for the value of ONE argument: a timeseries gives its index, a `pd.Index` itself, an array
+its length, a dict with the key 'index' that entry (a timeseries there denotes its index, `df_reindex` line 498-499); anything
+else raises `ValueError('did not provide an index')`.  Lists / tuples / dicts without 'index' give a list / dict of indexes
+that no `reindex` accepts (`err Other`; not generated). -/
+def indexOfArg : Tree → Res Index
+  | .leaf (.ts _ f) => .ok (.times f.idx)
+  | .leaf (.arr xs) => .ok (.len xs.length)
+  | .leaf (.other v) =>
+    match asPdIndex v with
+    | some ix => .ok (.times ix)
+    | Option.none => .error .value
+  | .node .dict kids =>
+    match kids.find? (·.1 == "index") with
+    | some (_, .leaf (.ts _ f)) => .ok (.times f.idx)
+    | some (_, .leaf (.other v)) =>
+      match asPdIndex v with
+      | some ix => .ok (.times ix)
+      | Option.none => .error .other
+    | _ => .error .other
+  | .node _ _ => .error .other
+
+/-- `presync(f)(*args, **kwargs)` when `join` NAMES A PARAMETER of `f` (lines 1026-1028): the index is
+`_index(callargs[join])`, the index of that argument, whatever the other arguments hold.  `pnames` = the names of the
+parameters the positional arguments bind to (`inspect.getcallargs`); `none` = `join` names no supplied argument (then
+`presyncCallM` applies). -/
+def presyncNamed (name : String) (bare : Bool) (ms : List Method) (pnames : List String) (args kwargs : List (String × Tree)) :
+    Option (Res (Tree × Tree)) :=
+  match ((pnames.zip (args.map (·.2))) ++ kwargs).find? (·.1 == name) with
+  | Option.none => Option.none
+  | some (_, v) =>
+    some (match indexOfArg v with
+          | .error e => .error e
+          | .ok ix => presyncOnto ix bare ms args kwargs)
+
 end Pyg.Align
